@@ -48,6 +48,15 @@ def main():
         crates = sorted(set(re.findall(r"^\+\+\+ b/([^/\n]+)/", diff, re.M)))
         crates = [c for c in crates if os.path.isdir(os.path.join(wt, c, "src"))] or ["minijinja"]
         crate = crates[0]
+        # the demonstration may belong to another crate than the one the patch edits
+        try:
+            dsrc = open(demo).read()
+            if "minijinja_autoreload" in dsrc and os.path.isdir(os.path.join(wt, "minijinja-autoreload")):
+                crate = "minijinja-autoreload"
+                if crate not in crates:
+                    crates.append(crate)
+        except Exception:
+            pass
         ok_all = True
         logs = {}
         for c in crates:
